@@ -3,7 +3,9 @@
 
     /venv/bin/python corpus/c04_F3_candidate_check.py [patched tree, default /tmp/wt_fix_c04_f3] [seed]
 
-The patched tree is a scratch worktree of /repo with the diff applied.  Streams (all exact):
+The patched tree is a scratch worktree of /repo with the diff applied:
+    git -C /repo worktree add --detach /tmp/wt_fix_c04_f3 HEAD && git -C /tmp/wt_fix_c04_f3 apply <verif>/corpus/c04_F3_candidate_fix.diff
+    (afterwards: git -C /repo worktree remove --force /tmp/wt_fix_c04_f3)  Streams (all exact):
   field      `numform(x)` returned by the patched `_write_ascii_header`  ==  `fmtEFx` (driver op `fmtfx`), for digits
              0..20 and doubles over the whole range (random bit patterns, the special values, every negative value with
              a three-digit exponent of the check's pools, the 99/100 exponent boundaries); and its length is `numlen`
